@@ -12,7 +12,7 @@ import (
 )
 
 type corpusStats struct {
-	Fixtures, Literals, Residues, Probes, Mutated, Long, Reps, Total int
+	Fixtures, Literals, Residues, Probes, Mutated, Long, Reps, Grown, Total int
 }
 
 // parseFixture returns the --INPUT-- section of a libinjection test file.
